@@ -564,10 +564,18 @@ def _impl_irreg(case, out, comp=None):
 
     out["center"] = _call(center)
 
+    def ragged():
+        """The same content in the ragged encoding (missing samples dropped instead of NaN)."""
+        fd = build()
+        pts = [np.asarray(fd.argvals[k]["input_dim_0"], dtype=float) for k in fd.argvals]
+        vals = [np.asarray(fd.values[k], dtype=float) for k in fd.values]
+        return _irregular([p[~np.isnan(v)] for p, v in zip(pts, vals)], [v[~np.isnan(v)] for v in vals], labels=[int(k) for k in fd.values])
+
     def normalize():
         nz = build().normalize(**opts)
         return dict(v=_vals(nz), norm_after=np.asarray(nz.norm(**opts), dtype=float).tolist(),
-                    norm_before=np.asarray(build().norm(**opts), dtype=float).tolist())
+                    norm_before=np.asarray(build().norm(**opts), dtype=float).tolist(),
+                    norm_ragged=np.asarray(ragged().norm(**opts), dtype=float).tolist())
 
     out["normalize"] = _call(normalize)
 
@@ -670,6 +678,7 @@ def _impl_multi(case, out):
         return dict(v=[cv(x) for x in nz.data], norm_after=np.asarray(nz.norm(**opts), dtype=float).tolist(),
                     norm_before=np.asarray(fd.norm(**opts), dtype=float).tolist(),
                     comp_norms=[np.asarray(x.norm(**opts), dtype=float).tolist() for x in build().data],
+                    raw=[cv(x) for x in build().data],
                     comp_norms_after=[np.asarray(x.norm(**opts), dtype=float).tolist() for x in nz.data])
 
     out["normalize"] = _call(normalize)
@@ -1081,8 +1090,10 @@ def _oracle_grid(case, impl, bad):
     if _err(nz):
         bad("runs", f"normalize raised {nz['error']}: {nz.get('msg')}", _entry(case, "normalize"))
     else:
+        if not all(math.isfinite(x) for x in nz["norm_before"]):
+            bad("norm_finite", f"norm of finite data is not finite: {nz['norm_before']}", _entry(case, "norm"))
         for i, (nb, na) in enumerate(zip(nz["norm_before"], nz["norm_after"])):
-            if nb > 1e-9 * big and not abs(na - 1) <= 1e-8:
+            if (nb > 1e-9 * big or not math.isfinite(nb)) and not abs(na - 1) <= 1e-8:
                 bad("normalize_unit", f"observation {i} has norm {na} after normalising (options stand={case['stand']}, {case['integ']}"
                     + (f", basis {case.get('family') or 'given'}, is_normalized={case.get('isn')}" if kind.startswith("basis") else "") + ")", _entry(case, "normalize"))
                 break
@@ -1200,9 +1211,21 @@ def _oracle_irreg(case, impl, bad, comp=None):
     if _err(nz):
         bad("runs", f"normalize raised {nz['error']}: {nz.get('msg')}", _entry(case, "normalize"), sub)
     else:
+        enc = f"{comp['enc']} encoding, stand={case['stand']}"
+        if not all(math.isfinite(x) for x in nz["norm_before"]):
+            bad("norm_finite", f"norm of irregular data ({enc}) is not finite: {nz['norm_before']} although every curve has finite samples",
+                _entry(case, "norm"), sub)
+        nr = nz["norm_ragged"]
+        if not all(abs(a - b) <= 1e-9 * max(abs(b), 1e-9 * big) for a, b in zip(nz["norm_before"], nr)):
+            bad("norm_encoding", f"norm of irregular data ({enc}) {nz['norm_before']} differs from the norm {nr} of the same curves with the missing samples dropped",
+                _entry(case, "norm"), sub)
+        for i, (v, x) in enumerate(zip(nz["v"], vals)):
+            if len(v) != len(x) or any(math.isfinite(a) and not math.isfinite(b) for a, b in zip(x, v)):
+                bad("normalize_finite", f"irregular observation {i} ({enc}): normalised samples are not finite where the input is: {v}", _entry(case, "normalize"), sub)
+                break
         for i, (nb, na) in enumerate(zip(nz["norm_before"], nz["norm_after"])):
-            if nb > 1e-9 * big and not abs(na - 1) <= 1e-8:
-                bad("normalize_unit", f"irregular observation {i} has norm {na} after normalising", _entry(case, "normalize"))
+            if (nb > 1e-9 * big or not math.isfinite(nb)) and not abs(na - 1) <= 1e-8:
+                bad("normalize_unit", f"irregular observation {i} ({enc}) has norm {na} after normalising", _entry(case, "normalize"), sub)
                 break
     for key, cause in (("standardize", "natural-heap"), ("standardize_adv", "nan-initialised-buffer")):
         s = impl[key]
@@ -1288,10 +1311,19 @@ def _oracle_multi(case, impl, bad):
             (["irregular-component"] if irr else []) + (["basis-component"] if any(c["type"].startswith("basis") for c in case["comps"]) else []))
     else:
         tot = np.sum(np.array(nz["comp_norms"]), axis=0)
-        if np.abs(np.array(nz["norm_before"]) - tot).max() > 1e-9 * max(tot.max(), 1e-300):
+        if not np.all(np.isfinite(np.array(nz["norm_before"], dtype=float))) or not np.all(np.isfinite(tot)):
+            bad("norm_finite", f"multivariate norm {nz['norm_before']} / component norms {nz['comp_norms']} are not finite "
+                f"(components: {[c['type'] + (':' + c['enc'] if c['type'] == 'irreg' else '') for c in case['comps']]}, stand={case['stand']})", E + "norm")
+        for p, (a, b) in enumerate(zip(nz["v"], nz["raw"])):
+            fa = [x for r in a for x in r]
+            fb = [x for r in b for x in r]
+            if len(fa) != len(fb) or any(math.isfinite(y) and not math.isfinite(x) for x, y in zip(fa, fb)):
+                bad("normalize_finite", f"multivariate normalize: component {p} has non-finite samples where the input is finite", E + "normalize")
+                break
+        if not (np.abs(np.array(nz["norm_before"]) - tot).max() <= 1e-9 * max(np.nanmax(tot), 1e-300)):
             bad("multivariate_norm", f"multivariate norm is not the sum of the component norms under options stand={case['stand']}, {case['integ']}", E + "norm")
         for i, (nb, na) in enumerate(zip(nz["norm_before"], nz["norm_after"])):
-            if nb > 1e-9 and not abs(na - 1) <= 1e-8:
+            if (nb > 1e-9 or not math.isfinite(nb)) and not abs(na - 1) <= 1e-8:
                 bad("normalize_unit", f"multivariate observation {i} has norm {na} after normalising (stand={case['stand']}, {case['integ']})", E + "normalize")
                 break
         for p, (a, b) in enumerate(zip(nz["comp_norms_after"], nz["comp_norms"])):
